@@ -55,6 +55,31 @@ theorem find?_isSome_iff (k : κ) (l : List (κ × α)) : (find? k l).isSome = t
         · exact absurd hm.symm h
         · exact ih.mpr (by simpa [keys] using hm)
 
+theorem find?_erase_self (k : κ) (l : List (κ × α)) : find? k (erase k l) = none := by
+  induction l with
+  | nil => simp [erase, find?]
+  | cons p rest ih =>
+    unfold erase
+    split
+    · exact ih
+    · rename_i hne
+      unfold find?
+      simp [hne, ih]
+
+theorem erase_erase_self (k : κ) (l : List (κ × α)) : erase k (erase k l) = erase k l := by
+  induction l with
+  | nil => simp [erase]
+  | cons p rest ih =>
+    by_cases h : p.1 = k
+    · simp [erase, h, ih]
+    · simp [erase, h, ih]
+
+/-- A second removal of the same key changes nothing (it finds no entry: nothing to subtract, nothing to delete). -/
+theorem clearKey_idem (c : Cache κ ν) (k : κ) : clearKey (clearKey c k) k = clearKey c k := by
+  unfold clearKey
+  simp only [foundSize, find?_erase_self, erase_erase_self]
+  cases c.sizeOn <;> simp
+
 theorem clearKey_keysNodup (c : Cache κ ν) (k : κ) (h : KeysNodup c) : KeysNodup (clearKey c k) := by
   unfold KeysNodup clearKey; exact nodup_keys_erase k h
 
